@@ -54,11 +54,7 @@ func getBearerIO() *bearerIO {
 				if err != nil {
 					return
 				}
-				reset := false
-				select {
-				case reset = <-b.cutHow:
-				default:
-				}
+				reset := <-b.cutHow // the harness says when (the bearer is parked by then) and how
 				if tc, ok := c.(*net.TCPConn); ok && reset {
 					tc.SetLinger(0)
 				}
@@ -112,7 +108,6 @@ func bearerStep(w *world, flavour string) stepResult {
 		}, nil, nil, &sent)
 	case "server-cut-eof", "server-cut-reset":
 		addr = b.cutLis.Addr().String()
-		b.cutHow <- flavour == "server-cut-reset"
 		cli = parkedBearer("", nil, in, goOn, &sent)
 	default:
 		cli = parkedBearer(name, nil, in, goOn, &sent)
@@ -143,6 +138,10 @@ func bearerStep(w *world, flavour string) stepResult {
 			return stepResult{note: "bearer not reached: " + why, async: true}
 		}
 		if early {
+			if flavour == "server-cut-eof" || flavour == "server-cut-reset" {
+				b.cutHow <- false
+				<-b.cutDone
+			}
 			return stepResult{note: note + ": the dial ended before the bearer ran: " + st.String(), async: true}
 		}
 		switch flavour {
@@ -156,6 +155,7 @@ func bearerStep(w *world, flavour string) stepResult {
 		case "peer-close":
 			cli.Close()
 		case "server-cut-eof", "server-cut-reset":
+			b.cutHow <- flavour == "server-cut-reset"
 			dc := make(chan struct{})
 			go func() { <-b.cutDone; close(dc) }()
 			if why := pxy.Await(dc, watchdog); why != "" {
